@@ -26,10 +26,14 @@ METHODS = ["fixed-point", "newton", "linear"]
 CONFIGS2 = [SR("real", "float64", Fraction(1, 4)), SR("log", "float64", Fraction(1, 4)), SR("viterbi", "float64"), SR("bool", "bool")]
 K_ENCL = 120
 
-def run_impl(spec, sr, method, tol, kmax, ids="explicit", rng=None, rtol=None, atol=None):
+def run_impl(spec, sr, method, tol, kmax, ids="explicit", rng=None, rtol=None, atol=None, patterned=False, staged=False):
     """returns (raised, warned, {nt: [obs]})"""
     import fggs
-    b = gen.build_fgg(spec, sr.wconv, ids=ids, rng=rng, dtype=sr.torch_dtype())
+    def stage(g):
+        with warnings.catch_warnings():
+            warnings.simplefilter("ignore")
+            fggs.sum_products(g, method=method, semiring=sr.semiring(), tol=tol, kmax=kmax)
+    b = gen.build_fgg(spec, sr.wconv, ids=ids, rng=rng, dtype=sr.torch_dtype(), patterned=patterned, stage=stage if staged else None)
     with warnings.catch_warnings(record=True) as wl:
         warnings.simplefilter("always")
         try:
@@ -50,13 +54,16 @@ def f2_predicate(spec, sr, method):
 
 def run(tier, seed):
     rng = random.Random(seed)
-    n = int(os.environ.get("VERIF_N", 0)) or (150 if tier == "quick" else 3000)
+    n = int(os.environ.get("VERIF_N", 0)) or (150 if tier == "quick" else 1500)
     violations = []
     bycf = {k: [] for k in CF}; meta = {k: [] for k in CF}
     feats = {}; distinct = set(); kinds = dict(values=0, budget=0, valueerror=0)
     for i in range(n):
         linear = rng.choice([True, False, None])
-        spec = gen.random_spec(rng, recursive=True, linear=linear, allow_inf=False, max_nt=3, max_rules=3, max_nodes=3, max_edges=3, max_dom=2)
+        if i % 6 == 4:
+            spec = gen.chain_spec(rng)
+        else:
+            spec = gen.random_spec(rng, recursive=True, linear=linear, allow_inf=False, max_nt=3, max_rules=3, max_nodes=3, max_edges=3, max_dom=2)
         # keep only weights <= 1 so that Viterbi cycles have weight <= 0
         spec["weights"] = {el: gen.nested_map(w, lambda v: v if v <= 1 else Fraction(1, 2)) for el, w in spec["weights"].items()}
         key = json.dumps(gen.spec_jsonable(spec), sort_keys=True)
@@ -74,7 +81,7 @@ def run(tier, seed):
             call = "fggs.sum_products(fgg, method=%r, semiring=%r, tol=%g, kmax=%d)" % (method, sr, tol, kmax)
             try:
                 raised, warned, out = run_impl(spec, sr, method, tol, kmax, ids=["explicit", "implicit", "mixed"][i % 3], rng=rng,
-                                               rtol=Fraction(1, 10**6), atol=Fraction(1, 10**7))
+                                               rtol=Fraction(1, 10**6), atol=Fraction(1, 10**7), patterned=(i % 2 == 0), staged=(i % 5 == 1))
             except Exception as e:
                 violations.append(Violation("sum_products raised %r" % (e,), case=dict(spec=gen.spec_jsonable(spec), semiring=repr(sr), method=method, tol=tol, kmax=kmax),
                                             call=call, corr="corr:sum_products(recursive)", oracle="no exception other than the documented ValueError"))
@@ -109,7 +116,7 @@ def run(tier, seed):
                                         corr="C02 / corr:sum_products(recursive)", failing_input_found=c in (1, 4, 5, 6, 7), call=call, finding_key=fk))
     s0 = meta["real"][0] if meta["real"] else None
     cov = dict(evaluations=total, distinct_nontrivial=len(distinct),
-               rule="random recursive FGG specs (self-loops, mutually recursive SCCs, linear/non-linear recursion, weight-one cycles in Viterbi/Bool; Real/Log weights damped by 1/4) x {Real, Log, Viterbi, Bool} x method rotating over fixed-point/newton/linear; one third of the runs with budget kmax in {1,2} (warning expected when the first kmax+1 stopping tests provably fail), the rest with kmax=400 (values judged against the certified enclosure); all grammars are recursive hence non-trivial; distinct by spec",
+               rule="random recursive FGG specs (self-loops, mutually recursive SCCs, linear/non-linear recursion, weight-one cycles in Viterbi/Bool; Real/Log weights damped by 1/4; one sixth chain grammars with deep best derivations; half with sparse PatternedTensor weights where the values allow; a fifth built in two stages with a query in between) x {Real, Log, Viterbi, Bool} x method rotating over fixed-point/newton/linear; one third of the runs with budget kmax in {1,2} (warning expected when the first kmax+1 stopping tests provably fail), the rest with kmax=400 (values judged against the certified enclosure); all grammars are recursive hence non-trivial; distinct by spec",
                case_kinds=kinds, value_checks_conclusive=conclusive, value_checks_inconclusive_discarded=inconclusive,
                feature_histogram=feats, kernel_reevaluated=nk, kleene_steps=K_ENCL,
                samples=[dict(spec=gen.spec_jsonable(s0[0]), semiring=repr(s0[1]), method=s0[2], tol=s0[3], kmax=s0[4], observed=s0[5])] if s0 else [],
